@@ -143,7 +143,8 @@ def compile_driver(outdir, body, *, includes=(), concrete=False, name="driver", 
         f.write(PRELUDE % {"includes": inc_lines})
         f.write(body)
     exe = os.path.join(outdir, f"{name}{'_c' if concrete else ''}")
-    cmd = [CXX, STD, "-O0", "-w", "-I", INC, "-I", os.path.join(outdir, "generated"), "-I", outdir, "-I", os.path.join(REPO, "cpp", "include"), "-I", os.path.join(REPO, "cpp", "runtime", "include")]
+    # a non-void function that can fall off its end is an error here as in the project's own build (-Wall -Werror)
+    cmd = [CXX, STD, "-O0", "-Werror=return-type", "-I", INC, "-I", os.path.join(outdir, "generated"), "-I", outdir, "-I", os.path.join(REPO, "cpp", "include"), "-I", os.path.join(REPO, "cpp", "runtime", "include")]
     if concrete:
         cmd.append("-DVSYM_CONCRETE")
     cmd += list(extra_flags) + [src, "-o", exe]
